@@ -13,25 +13,27 @@ def parseSched (s : String) : Option (List ReadEv) :=
     let (p', e) := if p.endsWith "e" then ((p.dropEnd 1).toString, true) else (p, false)
     p'.toNat?.map fun k => { k := k, withErr := e }
 
-/-- run `Recv` repeatedly, rendering what the harness can observe on the real stream. -/
-def streamRun (max : Nat) (wire : Bytes) (sched : List ReadEv) : String :=
+/-- run `Recv` repeatedly, rendering what the harness can observe on the real stream: per call the
+    outcome (`m` = a message was returned and decodes, `err` = any error — classes and texts are not
+    compared), the transport position after the call and the capacity requested for the buffer. -/
+def streamRun (c0 max : Nat) (wire : Bytes) (sched : List ReadEv) : String :=
   let total := wire.length
   let rec go (n : Nat) (t : Transport) (acc : String) : String :=
     match n with
-    | 0 => acc ++ "more pos=" ++ toString (total - t.wire.length)
+    | 0 => acc ++ "more@" ++ toString (total - t.wire.length)
     | n + 1 =>
-      let o := recv max t
-      let pos := toString (total - o.t.wire.length)
+      let o := recv c0 max t
+      let at_ := "@" ++ toString (total - o.t.wire.length) ++ ":" ++ toString o.cap
       match o.res with
       | .msg bs =>
         match unmarshalValue bs with
-        | .ok _ => go n o.t (acc ++ "m@" ++ pos ++ " ")
-        | .err _ => acc ++ "decErr pos=" ++ pos
-        | .panic _ => acc ++ "panic pos=" ++ pos
-      | .ioErr => acc ++ "ioErr pos=" ++ pos
-      | .eof => acc ++ "eof pos=" ++ pos
-      | .tooBig => acc ++ "tooBig pos=" ++ pos
-      | .fuel => acc ++ "fuel pos=" ++ pos
+        | .ok _ => go n o.t (acc ++ "m" ++ at_ ++ " ")
+        | .err _ => acc ++ "err" ++ at_
+        | .panic _ => acc ++ "panic" ++ at_
+      | .ioErr => acc ++ "err" ++ at_
+      | .eof => acc ++ "err" ++ at_
+      | .tooBig => acc ++ "err" ++ at_
+      | .fuel => acc ++ "fuel" ++ at_
   go (total / 8 + 2) { wire := wire, sched := sched } "ok "
 
 /-- `none` = command not handled here. -/
@@ -63,10 +65,11 @@ def handleWire (cmd arg : String) : Option String :=
     | none => "bad-op"
   | "stream.recv" => some <|
     match arg.splitOn " " with
-    | [m, w, sc] =>
-      match m.toNat?, bytesOfHex w, parseSched sc with
-      | some max, some wire, some sched => streamRun max wire sched
-      | _, _, _ => "bad-op"
+    | [m, c, w, sc] =>
+      -- `Stream.max` may be negative (the client passes -1): the code tests `s.max > 0`
+      match m.toInt?, c.toNat?, bytesOfHex (if w = "-" then "" else w), parseSched sc with
+      | some max, some c0, some wire, some sched => streamRun c0 max.toNat wire sched
+      | _, _, _, _ => "bad-op"
     | _ => "bad-op"
   | "pad" => some <|
     match arg.toNat? with
